@@ -49,7 +49,7 @@ def obligations(tier):
     HST = ["ideal_hash.c", "misuse.c", "libc.c", "x86_builtins.c"]
     for alg in (256, 512, 512256):
         bs = 64 if alg == 256 else 128
-        for kl in ((0, 32, bs + 1) if tier != "thorough" else (0, 1, 32, bs, bs + 1, bs + 40)):
+        for kl in ((0, 32, bs, bs + 1) if tier != "thorough" else (0, 1, 32, bs - 1, bs, bs + 1, bs + 40)):
             for ml in ((0, 20) if tier != "thorough" else (0, 1, 2, 20, 63, 64, 65, 100)):
                 obs.append(Ob("hmac%d-k%d-m%d" % (alg, kl, ml), "C04/hmac_hkdf.c", units=HU[alg] + COMMON, stubs=HST,
                               defs={"ALG": alg, "KLEN": kl, "MLEN": ml, "PART": 0}, unwind=330, timeout=900, family="hmac-%d" % alg,
